@@ -786,7 +786,43 @@ def _inline_children_aliases(tree):
     ast.fix_missing_locations(tree)
 
 
+def _private_record_returns(tree):
+    """return _Rec(a, b, c)  ->  return (a, b, c)   for a private NamedTuple class `_Rec` of the module (fields in
+    declaration order; keyword arguments placed by field name).  A function that used to hand back a plain tuple and
+    now hands back a typed record is the same function for every rule that follows the elements to the caller's
+    unpacking assignment.  Public record classes (the token classes) are left alone: rules look for their constructions."""
+    records = {}
+    for st in tree.body:
+        if isinstance(st, ast.ClassDef) and st.name.startswith('_') and any(
+                (isinstance(b, ast.Name) and b.id == 'NamedTuple') or (isinstance(b, ast.Attribute) and b.attr == 'NamedTuple')
+                for b in st.bases):
+            fields = [x.target.id for x in st.body if isinstance(x, ast.AnnAssign) and isinstance(x.target, ast.Name)]
+            plain = all(isinstance(x, (ast.AnnAssign, ast.Expr, ast.Pass)) for x in st.body)
+            if fields and plain:
+                records[st.name] = fields
+    if not records:
+        return
+    for n in ast.walk(tree):
+        if isinstance(n, ast.Return) and isinstance(n.value, ast.Call) and isinstance(n.value.func, ast.Name) \
+                and n.value.func.id in records:
+            fields = records[n.value.func.id]
+            c = n.value
+            if any(isinstance(a, ast.Starred) for a in c.args) or any(k.arg is None for k in c.keywords):
+                continue
+            elts = list(c.args)
+            rest = {k.arg: k.value for k in c.keywords}
+            ok = True
+            for fld in fields[len(elts):]:
+                if fld in rest:
+                    elts.append(rest.pop(fld))
+                else:
+                    ok = False
+            if ok and not rest and len(elts) == len(fields):
+                n.value = ast.copy_location(ast.Tuple(elts=elts, ctx=ast.Load()), c)
+
+
 def normal_form(tree, root=None, rel=None):
+    _private_record_returns(tree)
     # statement-level forms first (so that `x = E; return x` bodies count as single-return functions), then the
     # wrapper / implementation pairs, then extracted one-expression helpers, then expression forms
     _PlainAssign().visit(tree)
